@@ -10,7 +10,7 @@ ID = "C14"
 LEVEL = "exploration"
 SIDECARS = ["contracts.rates", "contracts.arch", "contracts.rollup"]
 TARGETS = ["Hardware.get_config", "Hardware.get_frequency", "Component.__init__", "Component.get_num_instances",
-           "MemoryComponent.get_bandwidth", "Architecture.__init__", "Collector.__build_time"]
+           "MemoryComponent.get_bandwidth", "Architecture.__init__", "Collector.__build_time", "SBlock.__init__", "SBlock.add"]
 TECHNIQUE = ("contracts (SMT) on Collector.__build_time (sum over blocks in order of 0 / the single component's time / max over "
              "every component of the block once), on the rate getters and on Architecture.__init__'s instance count + site "
              "contracts on the five time sites (structural, from the AST) + bounded run-time check of the roll-up VALUE "
